@@ -434,12 +434,37 @@ def _validate_one(path):
 class C11(Prop):
     cmd = "c11"
     cases = {"quick": 150, "thorough": 6000}
-    rule = ("every non-empty corpus file (3 histories each, thorough 12) and generated multi-sheet workbooks (C02 generator: cross-sheet shared strings, styles, hyperlinks, comments, tables); "
+    rule = ("every non-empty corpus file (5 histories each, thorough 15; the first three fixed: add / remove / rename a sheet), multi-sheet files of the grammar-based generator (indented XML, apostrophe-quoted attributes, shared formulas, ...) "
+            "and generated multi-sheet workbooks (C02 generator: cross-sheet shared strings, styles, hyperlinks, comments, tables, charts); "
             "histories of 1-10 operations over read_sheet, read_sheet_by_name, get_sheet_mut, get_sheet_by_name_mut, read_sheet_collection, cell edits, new_sheet, remove_sheet, set_sheet_name, "
             "workbook-level insert/remove, applied identically to a lazily and an eagerly opened workbook; distinct by hash of (file, history)")
     assumptions = ["oracle: the eagerly loaded workbook subjected to the same history (differential); accessed sheets are compared after every operation, the two saved results after reloading both eagerly",
                    "files saved from the lazy workbook are checked by monitors/xlsx_validate.py",
                    "an operation that fails on both workbooks alike ends the history (not a lazy/eager difference)"]
+
+    grammar_files = {"quick": 80, "thorough": 2000}
+
+    def run(self, v, tier, seed):
+        sys.path.insert(0, os.path.join(vlib.VERIF, "monitors"))
+        sys.path.insert(0, os.path.join(vlib.VERIF, "gen"))
+        import xlsxgen, xlsx_validate
+        out = vlib.workdir(self.cmd)
+        lst = os.path.join(out, "grammar-files.txt")
+        with open(lst, "w") as f:
+            for i in range(self.grammar_files[tier]):
+                sd = seed * 104729 + i
+                data, intent = xlsxgen.generate(sd)
+                # lazy loading matters for files with several sheets
+                if len(intent["sheets"]) < 2 or xlsx_validate.validate(data):
+                    continue
+                p = os.path.join(out, "grammar-%d.xlsx" % sd)
+                open(p, "wb").write(data)
+                f.write(p + "\n")
+        res = vlib.run_uvh(self.cmd, out, seed, tier, self.cases.get(tier), extra={"list": lst})
+        v.add_result(res)
+        v.rule = self.rule
+        v.assumptions = list(self.assumptions)
+        self.post(v, res, out, tier, seed)
 
     def post(self, v, res, out, tier, seed):
         from multiprocessing import Pool
